@@ -289,7 +289,7 @@ std::string vh::execute(toks_t& toks, std::string& aug)
             throw bad_op("function is not smooth or cannot be built: " + id);
         }
         convex_quadratic = (id == "sphere" || id == "quadratic" || id == "axis-ellipsoid" || id == "rotated-ellipsoid" || id == "trid" ||
-                            id == "sargan" || id.rfind("mse+ridge", 0) == 0);
+                            id.rfind("mse+ridge", 0) == 0);
     }
     else if (fkind == "quad")
     {
